@@ -531,6 +531,8 @@ def call_method(ip, obj, fam, name, args, kwargs, lineno):
             return a if name == "ravel" else M.map1(lambda v: v, a)
         if name == "copy":
             return M.map1(lambda v: v, a)
+        if name == "view" and args and isinstance(args[0], tuple) and args[0][0] == "np" and args[0][1] in VIEW_DTYPES:
+            return view_as(ip, a, args[0][1], lineno)
         if name == "astype" or name == "view":
             t = args[0] if args else None
             if t is bool or t is builtins.bool:
@@ -592,6 +594,29 @@ def call_method(ip, obj, fam, name, args, kwargs, lineno):
             return getattr(obj, name)(*args)
         raise Unsupported("method %s on %s" % (name, type(obj).__name__))
     raise Unsupported("method family %s" % fam)
+
+
+VIEW_DTYPES = {"uint16": (2, False), "int16": (2, True), "uint32": (4, False), "int32": (4, True), "uint64": (8, False), "int64": (8, True)}
+
+
+def view_as(ip, a, dtype, lineno):
+    """uint8 array .view(<intN>): little-endian composition of nb consecutive bytes (host is little-endian: ASSUMED);
+    signed types by two's complement.  Bytes are values 0..255 (type invariant of uint8 arrays)."""
+    M.use("ndarray.view(intN) of a byte array = little-endian composition (little-endian host)")
+    c = ip.ctx
+    nb, signed = VIEW_DTYPES[dtype]
+    q, r = c.divmod_(a.length, nb, lineno)
+    c.check("%s:view.size@L%s" % (c.fname, lineno), I(r) == 0, "safety", lineno, "byte count divisible by the item size")
+    f = a.snapshot()
+
+    def at(i):
+        v = z3.IntVal(0)
+        for b in range(nb):
+            v = v + I(f(nb * I(i) + b)) * (256 ** b)
+        if signed:
+            v = z3.If(v >= 2 ** (8 * nb - 1), v - 2 ** (8 * nb), v)
+        return v
+    return SArr.fresh(q, at, "int", None)
 
 
 def reshape1(ip, a, shape, lineno):
@@ -927,3 +952,75 @@ def _dc_replace(ip, args, kwargs, lineno):
     if isinstance(t, STable):
         return t.replaced(kwargs)
     raise Unsupported("dataclasses.replace on %r" % (t,))
+
+
+# =======================================================================================
+# itertools (ASSUMED, exact): accumulate(repeat(c), f) is the stream A(0)=c, A(k+1)=f(A(k), c);
+# takewhile(pred, A) is the longest prefix on which pred holds (the prefix is finite: termination is ASSUMED)
+
+class SymStream:
+    def __init__(self, at, const=None):
+        self.at, self.const = at, const
+
+
+@class_model("itertools.repeat")
+def _repeat(ip, args, kwargs, lineno):
+    v = args[0]
+    return SymStream(lambda k: v, const=v)
+
+
+@class_model("itertools.accumulate")
+def _accumulate(ip, args, kwargs, lineno):
+    src = args[0]
+    f = args[1] if len(args) > 1 else kwargs.get("func")
+    if not isinstance(src, SymStream) or src.const is None or f is None:
+        raise Unsupported("accumulate over a non-constant stream")
+    M.use("itertools.accumulate(repeat(c), f): A(0)=c, A(k+1)=f(A(k), c)")
+    c = ip.ctx
+    A = c.fresh_fun("accum")
+    g = c.fresh_int("accum_generic")
+    ip.call(f, [g, src.const], {}, lineno)      # collect f's own safety obligations once, for a generic argument
+    c.assume(A(0) == I(src.const))
+    c.assume(Forall(lambda k: Implies(I(k) >= 1, A(k) == I(ip.call(f, [A(I(k) - 1), src.const], {}, lineno))), triggers=[A], name="accumulate.rec"))
+    return SymStream(lambda k: A(I(k)))
+
+
+@class_model("itertools.takewhile")
+def _takewhile(ip, args, kwargs, lineno):
+    pred, src = args
+    if not isinstance(src, SymStream):
+        raise Unsupported("takewhile over %r" % (src,))
+    M.use("itertools.takewhile(pred, stream): longest prefix satisfying pred (finite: termination assumed)")
+    c = ip.ctx
+    m = c.fresh_int("takewhile_n")
+    c.assume(m >= 0)
+    c.assume(Not(ip.to_bool(ip.call(pred, [src.at(m)], {}, lineno))))
+    probe = src.at(z3.IntVal(0))
+    trig = [probe.decl()] if is_sym(probe) and z3.is_app(probe) and probe.num_args() == 1 else []
+    c.assume(Forall(lambda k: Implies(in_range(k, m), ip.to_bool(ip.call(pred, [src.at(k)], {}, lineno))), triggers=trig, name="takewhile.prefix"))
+    return SymList(m, src.at)
+
+
+class IntFromBytes:
+    """int.from_bytes(b, byteorder='little') for a byte sequence of at most 8 bytes"""
+
+    def sym_call(self, ip, args, kwargs, lineno):
+        b = args[0]
+        order = kwargs.get("byteorder", args[1] if len(args) > 1 else "big")
+        if order != "little":
+            raise Unsupported("big-endian from_bytes")
+        if isinstance(b, (bytes, bytearray)):
+            return int.from_bytes(b, "little")
+        M.use("int.from_bytes(little): little-endian composition of the bytes present")
+        n = conc(b.length)
+        f = b.snapshot()
+        v = z3.IntVal(0)
+        for k in range(8):
+            if isinstance(n, int):
+                if k < n:
+                    v = v + I(f(k)) * (256 ** k)
+            else:
+                v = v + z3.If(k < I(n), I(f(k)), 0) * (256 ** k)
+        if not isinstance(n, int):
+            ip.ctx.check("%s:from_bytes.width@L%s" % (ip.ctx.fname, lineno), I(n) <= 8, "safety", lineno)
+        return v
